@@ -129,10 +129,16 @@ def run(ctx, report):
         if exn:
             return
         inp = {'text': text[:3000], 'what': what}
-        if any(ord(c) < 32 and c not in '\n' for c in ''.join(r[2] for r in rows)):
-            report.count('xml:skipped-control-characters')
-            return
         if not rows:
+            return
+        if any(ord(c) < 32 and c not in '\n\r\t' for c in ''.join(r[2] for r in rows)):
+            # XML 1.0 has no way to carry most control characters: a document whose data (or whose ISA separator fields) hold one
+            # is judged on well-formedness only (recorded finding), not skipped
+            report.count('xml:control-characters-in-data-or-separators')
+            try:
+                et.fromstring(xml_text.encode('utf-8'))
+            except Exception as e:  # noqa
+                report.fail('C08:not-well-formed:control-character', 'the XML does not parse: %s' % str(e)[:100], inp)
             return
         try:
             root = et.fromstring(xml_text.encode('utf-8'))
@@ -186,14 +192,16 @@ def run(ctx, report):
                 if ch.tag == 'ele':
                     src_v = sg.get_value('%s%s' % (xid, cid[-2:]))
                     if (ch.text or '') != (src_v or ''):
-                        report.fail('C08:value:ele', 'element %s reads back as %r, source value %r' % (cid, ch.text, src_v), inp)
+                        report.fail('C08:value:ele' + (':carriage-return' if '\r' in (src_v or '') else ''),
+                                    'element %s reads back as %r, source value %r' % (cid, ch.text, src_v), inp)
                         return
                 elif ch.tag == 'comp':
                     for sub in ch:
                         sc = sub.get('id') or ''
                         src_v = sg.get_value(sc)
                         if (sub.text or '') != (src_v or ''):
-                            report.fail('C08:value:subele', 'sub-element %s reads back as %r, source value %r' % (sc, sub.text, src_v), inp)
+                            report.fail('C08:value:subele' + (':carriage-return' if '\r' in (src_v or '') else ''),
+                                        'sub-element %s reads back as %r, source value %r' % (sc, sub.text, src_v), inp)
                             return
             report.count('xml:values-compared', len(el))
         # round trip, for documents in which every segment was located by its own id
